@@ -28,6 +28,29 @@ def parse_coq(s):
     return eval(s, {"float": float})
 
 
+def gen_tall_clustering(rng):
+    """families of 256..400, 128..255 and a few dozen members, each with scaffold bits set in EVERY member
+    (column counts equal to the cluster size: beyond 127 / 255 inside one cluster), given as the clusters"""
+    nf = rng.choice([16, 24])
+    rows, clusters = [], []
+    for size in (rng.choice([256, 300, 400]), rng.choice([128, 200, 255]), rng.randint(5, 40)):
+        scaffold = rng.sample(range(nf), 3)
+        dens = rng.choice([0.2, 0.5, 0.8])
+        members = []
+        for _ in range(size):
+            r_ = [1 if (j in scaffold or rng.random() < dens) else 0 for j in range(nf)]
+            members.append(len(rows))
+            rows.append(r_)
+        clusters.append(members)
+    # interleave the families in the array (members are then not contiguous); keep lists ascending or not
+    perm = list(range(len(rows)))
+    rng.shuffle(perm)
+    inv = {old: new for new, old in enumerate(perm)}
+    rows = [rows[i] for i in perm]
+    clusters = [sorted(inv[i] for i in c) if rng.random() < 0.5 else [inv[i] for i in c] for c in clusters]
+    return nf, rows, clusters
+
+
 def gen_clustering(rng):
     cfg = hist.gen_cfg(rng)
     cfg["thr"] = rng.choice([0.3, 0.5, 0.65])
@@ -66,7 +89,7 @@ def suite_analysis(seed, tier):
     with tempfile.TemporaryDirectory(prefix="verif_ana_") as tmp:
         tmp = Path(tmp)
         for k in range(n_cases):
-            nf, rows, clusters = gen_clustering(rng)
+            nf, rows, clusters = gen_tall_clustering(rng) if k < (2 if tier == "quick" else 12) else gen_clustering(rng)
             A = np.array(rows, dtype=np.uint8)
             P = np.packbits(A, axis=1)
             top = rng.choice([None, 1, 2, 5, 20])
